@@ -363,3 +363,20 @@ def c01(run):
     run.cov['rule'] = ('6 kinds x fake keys (alg / kid / Base IV variants) x header maps (int / text labels of several Go integer types; int, bstr, tstr, bool, array, nested-map values) x payload kinds (nil, empty, bytes 1..70000 crossing every length-head class, RawMessage, typed) x external data (nil, empty, up to 256 bytes) x 0..3 recipients with one nesting level / 0..4 signers, consumed tagged, untagged and CWT-tagged; '
                        '24 real algorithms x 2 kinds each x payload lengths 0..1000 (thorough: 65535..70000) x headers x external data, consumed in the three forms with content compared')
     return D.finish(run, 'proof')
+
+
+@check('C10')
+def c10(run):
+    run.trusted += ['crypto/ecdsa, crypto/ed25519, crypto/elliptic (Go standard library): the elliptic-curve arithmetic is not modelled; it enters the theorems as arbitrary functions under the hypothesis prim_correct, and the sig oracle uses it as the independent implementation',
+                    'Gallina SHA-2 (Lib/Sha2.v, FIPS 180-4 vectors) for the digest cases']
+    run.assumptions += ['prim_correct: ECDSA signatures have r, s in [0, 256^size) and verify under the public point of the signing key',
+                        'rejection of a changed signature is ECDSA\'s / EdDSA\'s own property (the pair (r, n - s) is a second valid ECDSA signature, not reachable by one bit flip except by accident); observed by the sig oracle over every bit (thorough) or 40 bits per signature (quick)']
+    D.prove(run, extra_targets=['Model/Ecdsa.vo'])
+    rc, o = D.harness_build()
+    if rc != 0:
+        run.broke('harness build', o[-1500:])
+    else:
+        D.correspond(run, 'sig', [], reference_theorem='C10_decode_encode / C10_encode_decode / C10_tables_are_rfc9053 (EncodeSignature, DecodeSignature, ComputeHash)')
+    run.cov['rule'] = ('EncodeSignature / DecodeSignature on r, s in {0, 1, 255, 256, 2^k, n-1, n, n+1, 2^(8 size)-1, 2^(8 size), -1, random} for the 3 curves, signatures of 7 lengths; ComputeHash on block-boundary lengths; '
+                       '3 ECDSA algorithms x keys from small scalars, scalars with leading zero bytes, coordinates with leading zero bytes x messages 0..1000 (thorough: 64 KiB) bytes: library signature verified by crypto/ecdsa with the prescribed hash, crypto/ecdsa signature verified by the library, under the derived / exported / compressed / private / Go-converted key; other data, other key, 6 other lengths, bit flips; Ed25519 compared byte for byte with crypto/ed25519')
+    return D.finish(run, 'proof')
